@@ -16,20 +16,20 @@ import (
 
 // PropSpec maps a property of properties.jsonl to the obligations that decide it.
 type PropSpec struct {
-	ID          string   `json:"id"`
-	Functions   []string `json:"functions"`    // functions under contract whose obligations belong to the property
-	Lemmas      []string `json:"lemmas"`       // lemma names (proved) the property's argument uses
-	Kinds       []string `json:"kinds"`        // obligation kinds included (prefix match); empty = all
+	ID           string   `json:"id"`
+	Functions    []string `json:"functions"`     // functions under contract whose obligations belong to the property
+	Lemmas       []string `json:"lemmas"`        // lemma names (proved) the property's argument uses
+	Kinds        []string `json:"kinds"`         // obligation kinds included (prefix match); empty = all
 	UntaggedFrom []string `json:"untagged_from"` // if set: untagged obligations are taken from these functions only
-	Tag         string   `json:"tag"`          // label tag (e.g. "c05"): labelled obligations of other properties are excluded
-	Assumptions []string `json:"assumptions"`  // names from DESIGN.md section 5
-	Twins       []Twin   `json:"twins"`        // must-fail variants (vacuity guards)
-	Bounded     []string `json:"bounded"`      // functions only checked with a bound (never counted as proved)
-	Note        string   `json:"note"`
-	Syntactic   []string `json:"syntactic"`    // names of syntactic discipline checks to run (see synt.go)
-	Rows        []string `json:"rows"`         // registration tables whose rows are obligations (regtab.go)
-	Pipeline    bool     `json:"pipeline"`     // the function list is a union over the pipeline the property depends on: a function contributing no obligation is skipped, not an error
-	Also        []string `json:"also"`         // substrings of obligation names carrying another property's tag that this property relies on too
+	Tag          string   `json:"tag"`           // label tag (e.g. "c05"): labelled obligations of other properties are excluded
+	Assumptions  []string `json:"assumptions"`   // names from DESIGN.md section 5
+	Twins        []Twin   `json:"twins"`         // must-fail variants (vacuity guards)
+	Bounded      []string `json:"bounded"`       // functions only checked with a bound (never counted as proved)
+	Note         string   `json:"note"`
+	Syntactic    []string `json:"syntactic"` // names of syntactic discipline checks to run (see synt.go)
+	Rows         []string `json:"rows"`      // registration tables whose rows are obligations (regtab.go)
+	Pipeline     bool     `json:"pipeline"`  // the function list is a union over the pipeline the property depends on: a function contributing no obligation is skipped, not an error
+	Also         []string `json:"also"`      // substrings of obligation names carrying another property's tag that this property relies on too
 }
 
 // Twin is a must-fail variant: the named function is regenerated with one
@@ -167,19 +167,18 @@ var assumptionText = map[string]string{
 	"A-RANGE":       "A-RANGE: ranging an unmodified Go map visits each entry exactly once, maplen entries in all",
 	"A-REFLECT":     "A-REFLECT: reflect.* functions used by the codec behave as documented (trusted contracts in /verif/trusted/reflect.spec)",
 	"A-SKIP":        "A-SKIP: skipping goes through internal/reflect.skipValue, which recovers from panics of gopkg's thrift.Binary.Skip (v0.2.0 indexes a table with the type byte as int8 and panics for type bytes >= 0x80); assumed: err==nil => 0<n<=len(b), Skip never reads outside b and writes nothing",
-	"A-STD":         "A-STD: fmt/errors/strings/strconv/sort functions behave as documented (trusted contracts in /verif/trusted/deps.spec)",
+	"A-STD":         "A-STD: fmt/errors/strings.Split/strings.TrimSpace/strconv/sort/unicode.IsSpace behave as documented (trusted contracts in /verif/trusted/deps.spec; Split and TrimSpace results are uninterpreted functions of their arguments)",
 	"A-BOOL":        "A-BOOL: a Go bool in memory is the byte 0 or 1",
 	"A-INITDEFAULT": "A-INITDEFAULT: a user InitDefault() writes only inside its receiver and is deterministic",
 	"A-REGION":      "A-REGION: descriptors, input buffer, destination objects and scratch objects are pairwise disjoint on entry",
 	"A-HACK":        "A-HACK: the layout hacks of hack.go (rvWithPtr, rvPtr, rvTypePtr, rtTypePtr, updateIface, mapIter, maplen, sliceHeader.Zero) do what their comments say (frugal validates them at init); given assumed contracts",
 	"A-APPEND":      "A-APPEND: where the output buffer is treated as an abstract byte sequence, Go's append is sequence extension; its concrete reading (same array while the result fits the capacity, a fresh array otherwise; writes only into the spare capacity [ptr+len,ptr+cap) or fresh memory) is assumed at the boundary to concrete callers, and the spare capacity is assumed disjoint from the value being encoded",
 	"A-SIZE":        "A-SIZE: containers hold fewer than 2^31 elements (the count on the wire is the 32-bit truncation of the live length); a single in-memory element is at most 64 KiB",
-	"A-SDS":         "A-SDS: mapStructDesc.Get/Set (descmap.go) implement a map from abi type to descriptor (assumed abstract view $sds); atomic.Pointer Load/Store are sequentially consistent",
 	"A-INIT":        "A-INIT: package-level variables hold what their initialisers assign (non-nil maps, errors.New values) and are not reassigned",
-	"A-DEFS":        "A-DEFS: internal/defs (tag parser, type resolver) is not under contract; its output is assumed well-formed (wfDT: children present where the tag needs them, no pointer to pointer/container, Tag()/IsEnum() as documented; field lists with types, non-negative offsets, addressable defaults, nocopy only on strings)",
+	"A-DEFS":        "A-DEFS: callers of defs.ParseType/DoResolveFields assume the recursive predicate wfDT and the field-list facts of /verif/trusted/deps.spec; the parser and the field loop themselves are proved against the one-level versions of these facts (body contracts in internal/defs/contracts_verif.go)",
 	"A-KEY":         "A-KEY: defs.Type.String() together with the Go type determines tag, wire type and enum-ness of a parsed type (and a rank that strictly decreases towards children)",
 	"A-COMPOSE":     "A-COMPOSE: the step from per-function contracts to the whole-message statement is a structural induction over the descriptor tree written in DESIGN.md, not mechanised",
-	"A-WF":          "A-WF: descriptors handed to the codec satisfy wfT/wfSD/wfF as axiomatised in contracts_verif.go; the constructors (newTType, fromDefsFields, ...) are not yet proved to establish them",
+	"A-WF":          "A-WF: users of descriptors assume the uninterpreted predicates wfTshape/wfT/wfSD/wfF with one-way axioms (contracts_verif.go); the constructors (newTType, fromDefsField(s), newStructDesc, update*AppendFunc) are proved against concrete one-level postconditions (body contracts), and the step from 'proved at construction' to 'holds when the codec runs' rests on descriptors being immutable afterwards",
 	"A-SOLVER":      "A-SOLVER: an 'unsat' answer of z3 5.1.0 / z3 4.8.12 / cvc5 1.0.3 is correct (recursive definitions are axiomatised, not define-fun-rec, after a spurious unsat was observed; every function's assumption set is checked not to be refutable on every run)",
 }
 
